@@ -10,6 +10,7 @@ import vcore
 DEVIATIONS = [
     "MCFamilyLifecycle_code_window.cfg", "MCFamilyLifecycle_code_closelock.cfg", "MCFamilyLifecycle_code_noretry.cfg",
     "MCFamilyLifecycle_code_latewrite.cfg", "MCFamilyLifecycle_code_writerace.cfg", "MCFamilyLifecycle_code_writerace2.cfg",
+    "MCFamilyLifecycle_code_writerace3.cfg",
     "MCFamilyLifecycle_code_evictrace.cfg", "MCFamilyLifecycle_code_stamp.cfg", "MCFamilyLifecycle_code_stamp2.cfg",
     "MCFamilyLifecycle_dev_evictref.cfg", "MCFamilyLifecycle_dev_evictmem.cfg", "MCFamilyLifecycle_dev_closenoflush.cfg",
     "MCFamilyLifecycle_dev_ackcurrent.cfg",
@@ -25,6 +26,8 @@ def describe(sig, lines, rel, info):
         kind = "same-tick"
     elif '"ev":"EvictRef"' in head:
         kind = "evict-vs-retain"
+    elif '"ev":"WriteGet"' in head:
+        kind = "write-vs-flush"
     elif '"ev":"FlushFail"' in head:
         kind = "after-failed-flush"
     return "%s:%s" % (sig, kind)
@@ -45,6 +48,7 @@ def family_leg(ctx, thorough):
     # M: the design with every window closed satisfies all properties; the code (on histories the windows do not touch)
     # satisfies the core ones; every window of the code and every protective step switched off violates its property
     ctx.model_check("MCFamilyLifecycle", "MCFamilyLifecycle_thorough.cfg" if thorough else "MCFamilyLifecycle.cfg", timeout=3600)
+    ctx.model_check("MCFamilyLifecycle", "MCFamilyLifecycle_twostep.cfg", timeout=1800)
     ctx.model_check("MCFamilyLifecycle", "MCFamilyLifecycle_code.cfg", timeout=1800)
     with concurrent.futures.ThreadPoolExecutor(max_workers=4) as ex:
         futs = [ex.submit(ctx.model_check, "MCFamilyLifecycle", c, expect="violation", timeout=900, workers=4) for c in DEVIATIONS]
@@ -63,37 +67,25 @@ def family_leg(ctx, thorough):
     ctx.extra["family_events_by_kind"] = kinds
     traces = vcore.split_traces(vcore.read_lines(tr))
 
-    # conformance only: (only with the proposed hook tsdb.VerifGate) a writer that stood between GetOrCreateMemoryDatabase
-    # and AcquireWrite during a flush -- the row is lost there, as the model says (AtomicWrite)
-    def lossy(t):
-        return any('"ev":"WriteGet"' in ln for ln in t)
-    hooked = [t for t in traces if lossy(t)]
-    plain = [t for t in traces if not lossy(t)]
-    up = os.path.join(ctx.scratch, "famlife-plain.ndjson")
-    sp = os.path.join(ctx.scratch, "famlife-hooked.ndjson")
-    with open(up, "w") as f:
-        f.write("".join("".join(t) for t in plain))
-    with open(sp, "w") as f:
-        f.write("".join("".join(t) for t in hooked))
     # every step is a step of the specification and the properties that hold for the code hold in every state -- also on
     # the histories whose memory databases were created in one tick of the fast clock (every accepted row stays
-    # visible, AckedRowsDurable) and on Close against a running flush (NoStuck)
-    vcore.validate_all(ctx, "FamilyLifecycleTrace", "FamilyLifecycleTrace.cfg", up, describe=describe, dfs=False, max_rejections=60)
+    # visible, AckedRowsDurable), on Close against a running flush (NoStuck) and on a writer parked between getting the
+    # memory database and writing into it while a flush runs (the flush must wait for it: RegisterAtGet)
+    vcore.validate_all(ctx, "FamilyLifecycleTrace", "FamilyLifecycleTrace.cfg", tr, describe=describe, dfs=False, max_rejections=60)
     accepted = ctx.accepted_path
-    if hooked:
-        vcore.validate_all(ctx, "FamilyLifecycleTrace", "FamilyLifecycleTrace_conf.cfg", sp, describe=describe, dfs=False, max_rejections=20)
     ctx.extra["family_histories_with_creations_in_one_tick"] = sum(1 for t in traces if any('"sametick":true' in ln for ln in t))
     # the scripted windows were really entered (otherwise the run says nothing about them)
     need = {"close-during-flush-completed": "Close against a running flush", "EvictRef": "Evict gated between its checks", "FlushFail": "failing flush",
             "FlushBusy": "second Flush during a flush", "WriteClosed": "write on a closed object", "CloseAck": "acknowledgement by Close",
-            "memdbs-created-in-one-tick": "two memory databases created in one tick of the fast clock"}
+            "memdbs-created-in-one-tick": "two memory databases created in one tick of the fast clock",
+            "flush-waits-for-writer": "a flush that found a registered writer on the database it froze"}
     for k, what in need.items():
         if not kinds.get(k):
             raise vcore.Unresolved("the driver never exercised: %s (%s)" % (what, k))
     # vacuity: every trace action the driver can produce was taken
     cov = ctx.tlc("FamilyLifecycleTrace", "FamilyLifecycleTrace.cfg", workers=1, files={"trace.ndjson": accepted}, coverage=True, count=False)
     taken = {k.split("@")[0]: v for k, v in cov.coverage.items()}
-    for a in ["TLoad", "TWrite", "TWriteClosed", "TCommit", "TAckReg", "TRetain", "TRelease", "TFlushFreeze", "TFlushNothing",
+    for a in ["TLoad", "TWrite", "TWriteGet", "TWritePut", "TWriteClosed", "TCommit", "TAckReg", "TRetain", "TRelease", "TFlushFreeze", "TFlushNothing",
               "TFlushBusy", "TFlushFail", "TFlushCommit", "TFlushAck", "TFlushRelease", "TFlushDrop", "TCloseBegin",
               "TCloseWait", "TCloseCommit", "TCloseAck", "TCloseNext", "TCloseEnd", "TEvictRef", "TEvictMem",
               "TEvict", "TRead", "TProj"]:
@@ -145,5 +137,5 @@ def family_leg(ctx, thorough):
         "one real engine, one database / shard / family per history; family objects only through shard.GetOrCrateDataFamily and the exported DataFamily interface; reads through the real query path (sql -> leaf processor -> family.Filter), one series and one slot per row",
         "stages inside Flush are entered on the flushing goroutine through the table writer hook (after the freeze) and the AckSequence callback (after the kv commit, before the drop); Close-vs-Flush and Evict-vs-Retain use two goroutines whose parked state is read from the goroutine dump (no sleeps); Close against a flush must complete -- a flush parked at the family mutex or a wait of 30 s is recorded as the event Stuck, which the specification of the repaired code rejects",
         "the clock is not injectable: the age conditions of Evict are made true by setting the write window option of the database (ahead = -4h) after creation; the driver waits for the next 5 ms tick before a new memory database is created, except in the scenario that wants two creations in one tick (creation times less than 1 ms apart; retried up to 8 times until it happens)",
-        "Close is called directly on the family only as the last step of a history (what segment.Close does at shutdown); a failing flush is injected at the creation / close of the table file only; WriteRows is one step (the window between GetOrCreateMemoryDatabase and AcquireWrite has no seam: model only)",
+        "Close is called directly on the family only as the last step of a history (what segment.Close does at shutdown); a failing flush is injected at the creation / close of the table file only; WriteRows is one step except in the write-vs-flush scenarios, where the writer is parked at the gate hook `writerows.gotdb` (tsdb.VerifGate, 83539d8) and the flush is stopped at the creation and at the close of its table file",
     ]
